@@ -58,6 +58,21 @@ def main():
                     rep["nontrivial"] += 1
                 count("to_acgt_cases")
                 continue
+            if tag == "OR":
+                unit, n, k, norm = bytes.fromhex(parts[1]).decode("ascii"), int(parts[2]), int(parts[3]), parts[4] == "1"
+                s = (unit * (n // len(unit) + 1))[:n]
+                rep["evaluations"] += 1
+                for how in ("one", "batch"):
+                    oc = pk.OligoComputer(k)
+                    row = oc.vectorise_one(s, norm) if how == "one" else oc.vectorise_batch([s, "ACGT"], norm)[0]
+                    got = ",".join(bits(v) for v in row)
+                    if got != parts[5]:
+                        viol("oligo-vector", 10 ** 9, "OligoComputer(%d).vectorise_%s on %r repeated to %d bases (norm=%s) differs from the core row: %r..., core %r..." % (k, how, unit, n, norm, [float(v) for v in row[:3]], parts[5][:50]))
+                    else:
+                        rep["nontrivial"] += 1
+                del s
+                count("huge_records")
+                continue
             raw = bytes.fromhex(parts[1])
             try:
                 s = raw.decode("utf-8")
